@@ -221,7 +221,7 @@ func (s *Scanner) stringLiteral() {
 	s.advance()
 
 	value := s.source[s.start+1 : s.current-1]
-	s.AddToken(token.STRING, value)
+	s.AddToken(token.STRING, string(value))
 }
 
 func (s *Scanner) multilineComment() {
